@@ -94,7 +94,8 @@ MultiJudge(r) ==
       pj == [k \in 1..Len(ps) |->
                LET E == ProcEnd(CfgOf(r.iface), r.procs[k].N, ps[k]) IN
                [ok |-> ProcMonitors(ps[k]) /\ EndOk(r.procs[k].N, ps[k]) /\ E # {}, free |-> \A st \in E : st.free]]
-      \* the shipped writers produce the bytes the pass-through writer saw, when they have room
+      \* the shipped writers produce the bytes the pass-through writer (always listed first) saw,
+      \* when they have room
       full == CatB(Pick(rs[1], 1, {"out"}))
       wsame == \A k \in 2..Len(rs) :
                  (r.writers[k].k \in {"std", "heapless"} /\ (r.writers[k].k = "std" \/ r.writers[k].cap >= Len(full)))
